@@ -139,6 +139,10 @@ pub enum Link {
     HarnessPipe,
     /// `sfs ... | sfs ...` in a shell: a real pipe between the two processes
     ShellPipe,
+    /// a pipe handed to the consumer *by path*: `sfs ... | sfs <consumer> /dev/stdin`
+    DevStdin,
+    /// a named pipe (mkfifo) handed to the consumer by path, the producer writing into it
+    Fifo,
 }
 
 #[derive(Clone, Debug, Serialize, Deserialize)]
@@ -170,7 +174,7 @@ fn pipe_strategy() -> impl Strategy<Value = PipeCase> {
         value_spec(400),
         prop_oneof![Just(Producer::ViewText), Just(Producer::ViewNpy), Just(Producer::Fold)],
         prop_oneof![Just(Consumer::View), Just(Consumer::Fold), Just(Consumer::StatSum)],
-        prop_oneof![2 => Just(Link::File), 1 => Just(Link::HarnessPipe), 1 => Just(Link::ShellPipe)],
+        prop_oneof![3 => Just(Link::File), 2 => Just(Link::HarnessPipe), 2 => Just(Link::ShellPipe), 1 => Just(Link::DevStdin), 1 => Just(Link::Fifo)],
         0usize..=10,
         prop::option::weighted(0.5, prop_oneof![Just(1usize), 1usize..=200, 4000usize..=40_000]),
     )
@@ -237,6 +241,22 @@ fn eval_pipe(ctx: &Ctx, case: &PipeCase) -> Verdict {
             prod_args.push("in.sfs".into());
             let bin = ctx.sfs_bin.to_string_lossy().into_owned();
             let script = format!("set -o pipefail; \"{bin}\" {} | \"{bin}\" {}", prod_args.join(" "), cons_args.join(" "));
+            cli::run_bin(ctx, std::path::Path::new("/bin/bash"), &["-c", &script], Input::Null, &dir, &[])
+        }
+        Link::DevStdin => {
+            prod_args.push("in.sfs".into());
+            let bin = ctx.sfs_bin.to_string_lossy().into_owned();
+            let script = format!("set -o pipefail; \"{bin}\" {} | \"{bin}\" {} /dev/stdin", prod_args.join(" "), cons_args.join(" "));
+            cli::run_bin(ctx, std::path::Path::new("/bin/bash"), &["-c", &script], Input::Null, &dir, &[])
+        }
+        Link::Fifo => {
+            prod_args.push("in.sfs".into());
+            let bin = ctx.sfs_bin.to_string_lossy().into_owned();
+            let script = format!(
+                "set -o pipefail; rm -f link.fifo; mkfifo link.fifo; \"{bin}\" {} > link.fifo & \"{bin}\" {} link.fifo; rc=$?; wait; rm -f link.fifo; exit $rc",
+                prod_args.join(" "),
+                cons_args.join(" ")
+            );
             cli::run_bin(ctx, std::path::Path::new("/bin/bash"), &["-c", &script], Input::Null, &dir, &[])
         }
     };
@@ -397,7 +417,7 @@ fn eval_create(ctx: &Ctx, case: &CreateCase) -> Verdict {
             a.push("created.sfs".into());
             cli::sfs(ctx, &a, Input::Null, &dir)
         }
-        Link::HarnessPipe => cli::sfs(ctx, &cons_args, Input::Pipe(&produced_run.stdout), &dir),
+        Link::HarnessPipe | Link::DevStdin | Link::Fifo => cli::sfs(ctx, &cons_args, Input::Pipe(&produced_run.stdout), &dir),
         Link::ShellPipe => {
             let bin = ctx.sfs_bin.to_string_lossy().into_owned();
             let quoted: Vec<String> = prod_args.iter().map(|a| format!("'{}'", a.replace('\'', "'\\''"))).collect();
@@ -438,7 +458,7 @@ pub fn check(ctx: &Ctx) -> Check {
         }),
         Box::new(RandomPart {
             name: "cli-pipelines",
-            rule: "producer in {view (text), view -O npy, fold} x consumer in {view, fold, stat -s sum} x link in {file via -o (half of them onto an existing, longer file), OS pipe fed by the harness, shell pipe between two sfs processes}: the consumer must accept (exit 0) and its numbers must agree with what the producer wrote; non-trivial = >=2 axes",
+            rule: "producer in {view (text), view -O npy, fold} x consumer in {view, fold, stat -s sum} x link in {file via -o (half of them onto an existing, longer file), OS pipe fed by the harness, shell pipe between two sfs processes, a pipe handed over by path as /dev/stdin, a named pipe (mkfifo) handed over by path}: the consumer must accept (exit 0) and its numbers must agree with what the producer wrote; non-trivial = >=2 axes",
             cases: ctx.tier.pick(800, 8000),
             strategy: Box::new(|| pipe_strategy().boxed()),
             eval: Box::new(eval_pipe),
